@@ -27,3 +27,65 @@ def _mine(ex):
 _T._mine = _mine
 if PROP not in _T.PROPS:
     _T.PROPS = tuple(_T.PROPS) + (PROP,)
+
+
+# ---- `lst += [a, b, ...]` with a list DISPLAY on the right ------------------------------------------------------
+# ENGINE  the core models every in-place extension by a lambda array (j < len ? old[j] : other[j - len]); for a display of
+#         known items the same update is the sequence of appends  lst.append(a); lst.append(b); ...  (Python semantics of
+#         list.__iadd__ with a list argument), i.e. plain array stores, which keeps the loop obligations of
+#         piecewise_variables (`results += [bioMax(...)]`) first-order.  Active for C17 only.
+from pyvc import lib as _lib                      # noqa: E402
+from pyvc.vals import v_none as _v_none           # noqa: E402
+
+_orig_list_extend = _lib.list_extend
+
+
+def _list_extend(ex, st, lst, other):
+    if (ex.ctx.prop == PROP and lst.kind == 'list' and other.kind == 'list' and other.items is not None
+            and 0 < len(other.items) <= 4 and not st.spec):
+        for it in other.items:
+            _lib.list_method(ex, st, lst, 'append', [it], {}, None)
+        return
+    return _orig_list_extend(ex, st, lst, other)
+
+
+_lib.list_extend = _list_extend
+
+
+# ---- isinstance(x, int) / isinstance(x, float) on a value of unknown kind -----------------------------------------
+# LIBSPEC the core reads `isinstance(x, int)` as  num(x) and IsInt(x) and is_pyint(x)  and `isinstance(x, float)` as
+#         num(x) and not is_pyint(x)  with an uninterpreted predicate is_pyint; the fact "a Python int is an integer"
+#         (is_pyint(x) -> IsInt(value of x)) is missing, so `isinstance(x, (int, float, bool))` is not provable for a
+#         number of unknown kind (an element of a list[float | None]).  The fact is added for the tested term (C17 only).
+import z3 as _z3                                           # noqa: E402
+from pyvc import vals as _VV                               # noqa: E402
+from pyvc.vals import Val as _Val, uf as _uf               # noqa: E402
+
+_orig_isinstance1 = _lib._isinstance1
+
+
+def _isinstance1(ex, st, v, cv):
+    if ex.ctx.prop == PROP and v.kind in ('any', 'opt') and v.t is not None:
+        t = v.t
+        st.assume(_z3.Implies(_uf('is_pyint', _Val, _VV.B)(t), _z3.And(_Val.is_num(t), _z3.IsInt(_Val.nv(t)))))
+    return _orig_isinstance1(ex, st, v, cv)
+
+
+_lib._isinstance1 = _isinstance1
+
+
+# ---- type(x) of a value of unknown kind -----------------------------------------------------------------------
+# LIBSPEC type(x) for a value whose kind is not known statically is an opaque value typeof!(x) (uninterpreted function of
+#         x); piecewise_variables only renders it in an error message.  C17 only.
+from pyvc.vals import ANY as _ANY, V as _V       # noqa: E402
+
+_orig_b_type = _lib.BUILTINS['type']
+
+
+def _b_type(ex, st, args, kw, node):
+    if ex.ctx.prop == PROP and len(args) == 1 and args[0].kind in ('any', 'opt') and args[0].t is not None:
+        return _V(_uf('typeof!', _Val, _Val)(args[0].t), _ANY)
+    return _orig_b_type(ex, st, args, kw, node)
+
+
+_lib.BUILTINS['type'] = _b_type
